@@ -251,6 +251,10 @@ def _payload_full(payload, d, seed, salt):
         p = np.round(400 * r.rand(N, d) - 50, 3) + np.array([0.0, 0.0004, -0.0004, 0.00049, 0.0005])[:, None]
         p[0, 0] = 12345.6789
         p[1, d - 1] = -0.9996
+    elif payload == "mag":  # magnitudes 1e5, 1e6, 1e7 and 1e-4 (three decimals must survive whatever the size)
+        r = L.rs(seed, "c16mag", salt, d)
+        scales = np.array([1e5, 1e6, 1e7, 1e-4, -1e5])[:, None]
+        p = scales * (1.0 + 8.0 * r.rand(N, d)) + np.array([0.0004, 0.1234, 0.4996, 0.0, 0.7891])[:, None]
     else:
         raise ValueError(payload)
     return p
@@ -898,6 +902,12 @@ class C16(Check):
             for nan in nans:
                 for payload in ("pts", "generic", "pixel"):
                     out.append(("pts", li, nan, payload))
+        # coordinates of magnitude 1e5 .. 1e7 and 1e-4 (PTS: three decimals whatever the size; LJSON: exact)
+        for li in (0, 2, 8, 11):
+            for nan in ("none", "coord"):
+                out.append(("pts", li, nan, "mag"))
+                for d in (2, 3):
+                    out.append(("lj", "bare", ((8, li),), d, nan, "mag"))
         for n in (0,) + SMALL_N:
             for li in range(n_letters):
                 if not small_ok(SHAPE_LETTERS[li], n, "pts") or (quick and n == 3 and SHAPE_LETTERS[li][0] != "TriMesh"):
@@ -1337,6 +1347,8 @@ class C16(Check):
             refs = st["ref"]
             self.note("lj:ok" if not fails else "lj:failed")
             self.note("lj:groups%d" % len(refs))
+            if st["root"][5] == "mag":
+                self.note("lj:magnitudes")
             for gi_ in st["root"][2]:
                 if gi_[1] >= N_BASE_LETTERS:
                     self.note("lj:descending-edges:%s" % SHAPE_LETTERS[gi_[1]][1])
@@ -1409,11 +1421,16 @@ class C16(Check):
                         fails.append(Failure(where, "pts-precision", "shape / missing values differ from the %s points: %r vs %r" % (label, gp, refpts)))
                         break
                     with np.errstate(invalid="ignore"):
+                        # the format's half unit in the third decimal plus a few ulps of x + 1 (written, parsed, shifted back)
+                        excess = np.abs(gp - refpts) - (tol + 4 * np.spacing(np.abs(refpts) + 1.0))
+                        bad = bool(refpts.size) and bool(np.nanmax(np.where(np.isnan(excess), -1.0, excess)) > 0)
                         err = np.nanmax(np.abs(gp - refpts)) if refpts.size and np.isfinite(refpts).any() else 0.0
-                    if not err <= tol:
+                    if bad:
                         fails.append(Failure(where, "pts-precision", "max |imported - %s| = %.6g > %.3g\n%r\nvs\n%r" % (label, err, tol, gp, refpts)))
                         break
             self.note("pts:ok" if not fails else "pts:failed")
+            if st["root"][3] == "mag":
+                self.note("pts:magnitudes")
             if st["ref"].shape[0] < N:
                 self.note("pts:n%d" % st["ref"].shape[0])
             if np.isnan(st["ref"]).any():
@@ -1836,6 +1853,7 @@ class C16(Check):
                 "ow:refused-obj:LandmarkManager", "ow:refused-obj:dict", "ref:exists:landmark:LandmarkManager", "ref:exists:landmark:dict", "ref:exists:landmark:PointCloud",
                 "ref:exists:landmark:TriMesh", "ref:exists:pickle:dict", "ref:exists:pickle:PCAModel", "ref:exists:image:Image", "ref:exists:image:MaskedImage", "ref:exists:image:BooleanImage",
                 "lj:descending-edges:desc", "lj:descending-edges:alldesc", "lj:descending-edges:tree-root4",
+                "pts:magnitudes", "lj:magnitudes",
                 "lj:n1", "lj:n2", "lj:n3", "lj:manager-one-group-one-point", "lj:dict-one-group-one-point", "pts:n0", "pts:n1", "pts:n2", "pts:n3",
                 "pkl:small:n0", "pkl:small:n1", "pkl:small:n2", "pkl:image-1x1", "img:size:1x1", "img:size:1xN", "img:size:Nx1", "img:1x1-value-0", "img:1x1-value-255"]
         for e in ("ljson", "pts", "image", "pkl", "pklgz", "gif"):
